@@ -75,6 +75,7 @@ func init() {
 				{Scenario: "c08_rollback", Params: mustJSON(RollbackParams{}), Bound: 0, Shards: 4, Note: "the documented rollback filter: nothing at or below the position already reached, everything above it"},
 				{Scenario: "c03_conc", Params: mustJSON(ConcParams{}), Bound: 2, Shards: 8, Note: "three vBuckets on two nodes streaming concurrently, all schedules within the bound"},
 				{Scenario: "c03_conc", Params: mustJSON(ConcParams{Block: true}), Bound: 1, Shards: 4, Note: "consumer blocked inside a delivery of vb0 while the other node keeps delivering"},
+				{Scenario: "pipe", Params: mustJSON(PipeParams{Mode: "script", Layout: "single", Depth: 6, Ops: []string{"deliver0", "deliver1", "ackold", "commit"}, Faults: true}), Bound: 0, Shards: 4, Note: "saves that the store rejects between deliveries: delivery goes on (every later event still reaches the consumer, every later commit returns)"},
 				{Scenario: "c03_twosessions", Params: mustJSON(struct{}{}), Bound: 0, Shards: 1, Note: "two complete Dcp sessions in one process with independent collection configurations (and a collection re-created with a new id in between): names and stream filter of each session"},
 				{Scenario: "c03_rebalance", Params: mustJSON(struct{}{}), Bound: 0, Shards: 4, Note: "completeness across a real Rebalance(): backlog arriving before it, while closed, or right after the vBucket re-opened while Open() still waits for another vBucket"},
 				{Scenario: "reopen_life", Params: mustJSON(LifeParams{Oracle: "delivery", Segs: 2}), Bound: 0, Shards: 8, Note: "chains of transient ends and re-opens (same history / fail-over without rollback / rollback), every acknowledgement pattern between them"},
